@@ -8,7 +8,7 @@ CONSTANTS
 INVARIANT NoUB
 INVARIANT ImplAgreesOffHazards
 INVARIANT HazardsConfined
-INVARIANT HazardExact
+INVARIANT CropClamped
 INVARIANT MacrosSound
 INVARIANT RefSound
 INVARIANT RefShape
